@@ -29,6 +29,7 @@ type rawBuild struct {
 	reveal     string
 	header     map[string]any
 	extra      map[string]any // Step.SignedExtra
+	keyExtras  bool           // Step.KeyExtras
 
 	// products
 	delta   map[string]any
@@ -76,6 +77,14 @@ func (rb *rawBuild) build() {
 	}
 	if rb.until != 0 {
 		rb.payload["anchorUntil"] = intLiteral(rb.until)
+	}
+	if rb.keyExtras {
+		// the revealed key carries optional RFC 7517 parameters beside the members that are hashed (kty, crv, x, y, nonce)
+		if j, isKey := rb.payload[rb.keyMember()].(map[string]any); isKey {
+			j = ref.Clone(j).(map[string]any)
+			j["kid"], j["use"], j["alg"], j["key_ops"] = "key-1", "sig", rb.w.Pool.Get(rb.sign.Idx).Type.Alg(), []any{"verify"}
+			rb.payload[rb.keyMember()] = j
+		}
 	}
 	for k, v := range rb.extra {
 		if _, has := rb.payload[k]; has {
@@ -310,7 +319,7 @@ func (rb *rawBuild) applyFault(fault string, arg int, op *BuiltOp) {
 		case 0:
 			rb.payload["recoveryCommitment"] = "not-a-multihash"
 		default: // re-using the revealed key as the next commitment
-			rb.payload["recoveryCommitment"] = ref.Commitment(rb.alg, rb.payload["recoveryKey"])
+			rb.payload["recoveryCommitment"] = ref.Commitment(rb.alg, rb.w.refJWK(rb.sign)) // (the hashed members only: optional JWK parameters are not part of a commitment)
 		}
 	default:
 		panic("unknown fault class " + fault)
